@@ -229,3 +229,167 @@ def walk_fields(sels, frags, seen=None):
         elif s.name in frags and s.name not in seen:
             seen.add(s.name)
             yield from walk_fields(frags[s.name].sels, frags, seen)
+
+
+# ---- (de)serialisation: explicit document models inside replay files ------------------------------
+
+def _tt(x):
+    """lists -> tuples (JSON round trip of Value / type tuples); obj literals keep their list of pairs."""
+    if isinstance(x, list):
+        return tuple(_tt(i) for i in x)
+    return x
+
+
+def _val(v):
+    """Value tuple from its JSON form."""
+    v = list(v)
+    k = v[0]
+    if k == "list":
+        return ("list", [_val(x) for x in v[1]])
+    if k == "obj":
+        return ("obj", [(n, _val(x)) for n, x in v[1]])
+    return tuple(v)
+
+
+def doc_to_json(doc):
+    def dirs(ds):
+        return [[d.name, [[n, v] for n, v in d.args]] for d in ds]
+
+    def sel(s):
+        if s.kind == "field":
+            return {"k": "f", "name": s.name, "alias": s.alias, "args": [[n, v] for n, v in s.args], "dirs": dirs(s.directives),
+                    "sels": None if s.sels is None else [sel(x) for x in s.sels]}
+        if s.kind == "inline":
+            return {"k": "i", "cond": s.cond, "dirs": dirs(s.directives), "sels": [sel(x) for x in s.sels]}
+        return {"k": "s", "name": s.name, "dirs": dirs(s.directives)}
+
+    out = []
+    for d in doc.defs:
+        if d.kind == "operation":
+            out.append({"k": "op", "op": d.op, "name": d.name, "shorthand": d.shorthand, "dirs": dirs(d.directives),
+                        "vardefs": [[n, ty, None if default == ("absent",) else default] for n, ty, default in d.vardefs],
+                        "sels": [sel(x) for x in d.sels]})
+        else:
+            out.append({"k": "fr", "name": d.name, "cond": d.cond, "sels": [sel(x) for x in d.sels]})
+    return out
+
+
+def doc_from_json(js):
+    from simv.model.schema import ABSENT, DirUse
+
+    def dirs(ds):
+        return [DirUse(n, [(a, _val(v)) for a, v in args]) for n, args in ds]
+
+    def sel(s):
+        if s["k"] == "f":
+            return Field(s["name"], s["alias"], [(n, _val(v)) for n, v in s["args"]], dirs(s["dirs"]),
+                         None if s["sels"] is None else [sel(x) for x in s["sels"]])
+        if s["k"] == "i":
+            return Inline(s["cond"], dirs(s["dirs"]), [sel(x) for x in s["sels"]])
+        return Spread(s["name"], dirs(s["dirs"]))
+
+    defs = []
+    for d in js:
+        if d["k"] == "op":
+            op = Operation(d["op"], d["name"], [(n, _tt(ty), ABSENT if default is None else _val(default)) for n, ty, default in d["vardefs"]],
+                           [sel(x) for x in d["sels"]], dirs(d.get("dirs", [])))
+            op.shorthand = d.get("shorthand", False)
+            defs.append(op)
+        else:
+            defs.append(Fragment(d["name"], d["cond"], [sel(x) for x in d["sels"]]))
+    doc = Document(defs)
+    doc.probes = {}
+    return doc
+
+
+def doc_reductions(js):
+    """Yield structurally smaller variants of a JSON document model that stay valid: one selection,
+    directive, fragment or operation removed; unused fragments and variables are cleaned up."""
+    import copy
+
+    def vars_in(v, acc):
+        if v[0] == "var":
+            acc.add(v[1])
+        elif v[0] == "list":
+            for x in v[1]:
+                vars_in(x, acc)
+        elif v[0] == "obj":
+            for _, x in v[1]:
+                vars_in(x, acc)
+
+    def scan(sels, used_vars, spreads):
+        for s in sels:
+            for _, args in s.get("dirs", []):
+                for _, v in args:
+                    vars_in(v, used_vars)
+            if s["k"] == "f":
+                for _, v in s["args"]:
+                    vars_in(v, used_vars)
+                if s["sels"]:
+                    scan(s["sels"], used_vars, spreads)
+            elif s["k"] == "i":
+                scan(s["sels"], used_vars, spreads)
+            else:
+                spreads.add(s["name"])
+
+    def cleanup(d):
+        frs = {x["name"]: x for x in d if x["k"] == "fr"}
+        info = {}
+        for x in d:
+            uv, sp = set(), set()
+            scan(x["sels"], uv, sp)
+            info[id(x)] = (uv, sp)
+        reach = set()
+        for x in d:
+            if x["k"] != "op":
+                continue
+            uv, sp = set(info[id(x)][0]), set()
+            stack = list(info[id(x)][1])
+            while stack:
+                n = stack.pop()
+                if n in sp or n not in frs:
+                    continue
+                sp.add(n)
+                uv |= info[id(frs[n])][0]
+                stack.extend(info[id(frs[n])][1])
+            reach |= sp
+            x["vardefs"] = [vd for vd in x["vardefs"] if vd[0] in uv]
+        return [x for x in d if x["k"] == "op" or x["name"] in reach]
+
+    def walk(d):
+        """yield (container list, index) for every selection."""
+        def rec(sels):
+            for i, s in enumerate(sels):
+                yield sels, i
+                if s["k"] in ("f", "i") and s.get("sels"):
+                    yield from rec(s["sels"])
+        for x in d:
+            yield from rec(x["sels"])
+
+    ops = [x for x in js if x["k"] == "op"]
+    if len(ops) > 1:
+        for i, x in enumerate(js):
+            if x["k"] == "op":
+                d = copy.deepcopy(js)
+                del d[i]
+                yield cleanup(d)
+    n = sum(1 for _ in walk(js))
+    for k in range(n):
+        d = copy.deepcopy(js)
+        sels, i = list(walk(d))[k]
+        if len(sels) > 1:
+            del sels[i]
+            yield cleanup(d)
+        d = copy.deepcopy(js)
+        sels, i = list(walk(d))[k]
+        s = sels[i]
+        if s.get("dirs"):
+            s["dirs"] = []
+            yield cleanup(d)
+        if s["k"] == "i" and len(s["sels"]) >= 1:
+            d = copy.deepcopy(js)
+            sels, i = list(walk(d))[k]
+            s = sels[i]
+            if s["cond"] is None:
+                sels[i:i + 1] = s["sels"]
+                yield cleanup(d)
